@@ -59,29 +59,41 @@ theorem C17_sticky (limit : Nat) (u : Under) (bufs : List Nat) :
     stickyOK ((limited limit u).run bufs) = true :=
   (MBR.run_spec bufs (limited limit u) rfl).2.1
 
-/-- Longest scope wins: the entry `Limit.ServeHTTP` picks from the table built by the `limits`
-directive matches the request, no configured matching path is longer, and its limit is the
-last one configured for that path; it picks nothing only if no configured path matches. -/
-theorem C17_longest_scope_wins (cs : Bool) (raw : List (Bytes × Nat)) (p : Bytes) :
-    match selectLimit cs (buildTable raw) p with
+/-- Longest scope wins, for ANY table holding the parsed entries sorted longest path first
+(Go's sort.Sort is stable only up to 12 elements; the order among equally long paths does not
+matter): the first matching entry matches the request, no configured matching path is longer,
+and its limit is the last one configured for that path; nothing is picked only if no configured
+path matches. -/
+theorem C17_longest_scope_wins_any_order (cs : Bool) (raw : List (Bytes × Nat)) (p : Bytes) (t : Table)
+    (hmem : ∀ e, e ∈ t ↔ e ∈ parseArguments raw) (hsorted : t.Pairwise geLen) :
+    match selectLimit cs t p with
     | some e => pathMatches cs p e.path = true ∧ lastLimit raw e.path = some e.limit ∧
         ∀ r ∈ raw, pathMatches cs p (normPath r.1) = true → (normPath r.1).length ≤ e.path.length
     | none => ∀ r ∈ raw, pathMatches cs p (normPath r.1) = false := by
   obtain ⟨hI1, hI2⟩ := parseArguments_inv raw
-  have hmem := sortDesc_mem (parseArguments raw)
-  cases hf : selectLimit cs (buildTable raw) p with
+  cases hf : selectLimit cs t p with
   | none =>
     intro r hr
-    obtain ⟨t, ht, htp⟩ := hI2 r hr
-    have := List.find?_eq_none.mp hf t ((hmem t).mpr ht)
-    rw [← htp]; simpa using this
+    obtain ⟨x, hx, hxp⟩ := hI2 r hr
+    have := List.find?_eq_none.mp hf x ((hmem x).mpr hx)
+    rw [← hxp]; simpa using this
   | some e =>
-    obtain ⟨h1, h2, h3⟩ := find_sorted_longest _ _ (sortDesc_sorted (parseArguments raw)) e hf
+    obtain ⟨h1, h2, h3⟩ := find_sorted_longest _ _ hsorted e hf
     refine ⟨h1, hI1 e ((hmem e).mp h2), ?_⟩
     intro r hr hm
-    obtain ⟨t, ht, htp⟩ := hI2 r hr
-    have := h3 t ((hmem t).mpr ht) (by rw [htp]; exact hm)
-    rw [htp] at this; exact this
+    obtain ⟨x, hx, hxp⟩ := hI2 r hr
+    have := h3 x ((hmem x).mpr hx) (by rw [hxp]; exact hm)
+    rw [hxp] at this; exact this
+
+/-- … in particular for the table the `limits` directive builds (parse, then the stable
+insertion sort that sort.Sort performs on up to 12 entries). -/
+theorem C17_longest_scope_wins (cs : Bool) (raw : List (Bytes × Nat)) (p : Bytes) :
+    match selectLimit cs (buildTable raw) p with
+    | some e => pathMatches cs p e.path = true ∧ lastLimit raw e.path = some e.limit ∧
+        ∀ r ∈ raw, pathMatches cs p (normPath r.1) = true → (normPath r.1).length ≤ e.path.length
+    | none => ∀ r ∈ raw, pathMatches cs p (normPath r.1) = false :=
+  C17_longest_scope_wins_any_order cs raw p (buildTable raw) (sortDesc_mem (parseArguments raw))
+    (sortDesc_sorted (parseArguments raw))
 
 /-- The whole judged predicate for the request-body part: for every table, path, scripted body
 and caller, what the model's innermost handler observes gets the verdict "ok". -/
@@ -196,6 +208,23 @@ theorem C17_defaults_regenerated :
   decide
 
 /-! Non-vacuity and tests on literals (labelled as tests, not the general claims). -/
+
+/-- non-vacuity of `C17_longest_scope_wins_any_order`: the reversed-among-equals order is admitted too -/
+example : (∀ e, e ∈ [(⟨[47, 98], 2⟩ : PathLimit), ⟨[47, 97], 1⟩] ↔ e ∈ parseArguments [([47, 97], 1), ([47, 98], 2)]) ∧
+    [(⟨[47, 98], 2⟩ : PathLimit), ⟨[47, 97], 1⟩].Pairwise geLen := by
+  have hp : parseArguments [([47, 97], 1), ([47, 98], 2)] = [⟨[47, 97], 1⟩, ⟨[47, 98], 2⟩] := by decide
+  constructor
+  · intro e
+    rw [hp]
+    simp only [List.mem_cons, List.not_mem_nil, or_false]
+    exact Or.comm
+  · rw [List.pairwise_cons]
+    refine ⟨?_, List.pairwise_cons.mpr ⟨by simp, List.Pairwise.nil⟩⟩
+    intro a ha
+    simp only [List.mem_singleton] at ha
+    subst ha
+    show ([47, 98] : Bytes).length ≥ ([47, 97] : Bytes).length
+    decide
 
 /-- test: hypotheses of `C17_delivers_min` are met by a body of 7 bytes arriving as 3+1+3,
 read with 2-byte buffers under a limit of 5; 5 bytes are delivered and the 3rd Read reports too-large. -/
